@@ -271,12 +271,16 @@ def compare(I, st, op, a, b, fr, k):
     ra, rb = as_real(ta), as_real(tb)
     rel = {ast.Lt: lambda x, y: x < y, ast.LtE: lambda x, y: x <= y, ast.Gt: lambda x, y: x > y, ast.GtE: lambda x, y: x >= y}[type(op)]
     both_num = z3.And(is_numeric(ta), is_numeric(tb))
+    # two integers are compared as integers: the real-valued encoding of `n < k < n + 1` sends the arithmetic solver into an
+    # unbounded branch-and-bound (observed: unknown after 30 s on a three-literal formula)
+    both_int_ = z3.And(is_intlike(ta), is_intlike(tb))
+    num_rel = z3.If(both_int_, rel(as_int(ta), as_int(tb)), rel(ra, rb)) if not os.environ.get("PYVC_NOINTCMP") else rel(ra, rb)
     if fr.spec:
         sa, sb = get_s(ta), get_s(tb)
         cs = {ast.Lt: sa < sb, ast.LtE: sa <= sb, ast.Gt: sb < sa, ast.GtE: sb <= sa}[type(op)]
-        return k(st, Sym(mk_bool(z3.If(both_num, rel(ra, rb), z3.And(is_str(ta), is_str(tb), cs)))))
+        return k(st, Sym(mk_bool(z3.If(both_num, num_rel, z3.And(is_str(ta), is_str(tb), cs)))))
     def knum(s2):
-        return k(s2, Sym(mk_bool(z3.simplify(rel(ra, rb)))))
+        return k(s2, Sym(mk_bool(z3.simplify(num_rel))))
     def other(s2):
         both_str = z3.And(is_str(ta), is_str(tb))
         def kstr(s3):
@@ -636,6 +640,7 @@ def setitem(I, st, c, key, v, fr, k):
 
 
 USER_SETITEM = {}
+NEWEST = "$newest"     # Array(Int, V): per dict, the key inserted last (dicts keep insertion order)
 
 
 def dict_store(I, st, loc, kt, vt):
@@ -646,6 +651,8 @@ def dict_store(I, st, loc, kt, vt):
     st.write(MAP, loc, z3.Store(st.read(MAP, loc), kt, vt))
     n = st.read(LEN, loc)
     st.write(LEN, loc, z3.If(had, n, n + 1))
+    # insertion order, as far as it is used: the most recently INSERTED key (an overwrite keeps the key's position)
+    st.write(NEWEST, loc, z3.If(had, st.read(NEWEST, loc), kt))
 
 
 def delitem(I, st, c, key, fr, k):
@@ -1142,6 +1149,8 @@ def b_len(I, st, args, kwargs, fr, k):
         t = x.t
         if x.hint in USER_LEN:
             return k(st, Sym(mk_int(USER_LEN[x.hint](I, st, get_loc(t)))))
+        if fr.spec and x.hint and x.hint not in ("builtins.str", "builtins.bytes"):
+            return k(st, Sym(mk_int(st.read(LEN, get_loc(t)))))       # a container of known class: no string terms in the formula
         if fr.spec:
             # specs: total - the length of a string / bytes / container, an unspecified number otherwise
             return k(st, Sym(mk_int(z3.If(is_str(t), z3.Length(get_s(t)), z3.If(is_byt(t), z3.Length(get_y(t)), st.read(LEN, get_loc(t)))))))
@@ -1206,6 +1215,13 @@ def b_list(I, st, args, kwargs, fr, k):
             loc = I.alloc(st, "builtins.list")
             n = st.read(LEN, loc)
             st.fact(n >= 0, n <= args[0].maxlen)
+            return k(st, Sym(mk_ref(loc), hint="builtins.list"))
+        if isinstance(args[0], ValuesOf) and isinstance(args[0].src, Sym):
+            # list(d.values()): a fresh list with one (unconstrained) element per entry of the mapping
+            note(I, "list(mapping.values()): fresh list of len(mapping) elements (the elements themselves are not related to the mapping)")
+            n0 = st.read(LEN, get_loc(args[0].src.t))
+            loc = I.alloc(st, "builtins.list")
+            st.write(LEN, loc, n0)
             return k(st, Sym(mk_ref(loc), hint="builtins.list"))
         raise Unsupported("list() of symbolic iterable")
     return k(st, new_list(I, st, items))
@@ -1503,6 +1519,14 @@ def b_re_fn(mode):
             return k(st, rx)
         return regex.call(I, st, rx, mode, [args[1]], {}, fr, k)
     return f
+
+
+class ValuesOf(Value):
+    """`m.values()` of a heap mapping (only consumable by list())."""
+    __slots__ = ("src",)
+
+    def __init__(self, src):
+        self.src = src
 
 
 class ItemsOf(Value):
